@@ -16,4 +16,17 @@ PROPS = {
         "assumptions": ["units are registered with in-range attributes (OpValid)", "finite float amounts (no NaN/Inf); positive max HP",
                         "no re-entrant listeners on the attribute events"],
     },
+    "C16": {
+        "level_text": "Kernel-checked Lean theorems about an executable model of the shield manager: strength = (sum of terms + flat)(1+bonus)(1+taken) independent of term order; add replaces in place or appends; absorb passes on max(0, damage - strongest), reduces every shield by the full damage floored at 0, removes and announces exactly the depleted ones once; pass-through for non-positive damage/unshielded; key-uniqueness and non-negativity invariants over all histories. Tied to the Go code by a bit-exact correspondence check over add/remove/absorb sequences (shield list observed through a verif-tagged hook).",
+        "level_note": "Trusted: Lean kernel, propext/Classical.choice/Quot.sound, Mathlib; correspondence harness and generators; Rat reading of float64. Modelled not verified: pkg/engine/shield; attribute stats supplied by a stub Eval; math.Dim modelled as max(0,a-b).",
+        "technique": "Lean 4 proof (refinement to spec + invariants by induction) + differential model/implementation correspondence",
+        "component": "shield",
+        "driver": "Driver/C16.lean",
+        "modules": ["Srsim.Props.C16"],
+        "n": {"quick": 400, "thorough": 6000},
+        "thorough_seeds": 4,
+        "nontrivial_min": 3,
+        "trusted": ["modelled, not verified: pkg/engine/shield (add.go, absorb.go, remove.go, manager.go); stats via stub Eval; math.Dim"],
+        "assumptions": ["non-negative shield strengths for the non-negativity invariant (OpNonNeg)", "finite float inputs"],
+    },
 }
